@@ -379,4 +379,35 @@ theorem scoreValStep_out_congr (cfg : ScoreValCfg) (st st' : CheckerStore) (vote
         · split <;> rfl
         · split <;> rfl
 
+/-! ### dispatch cache -/
+
+/-- every remembered answer is the answer for every evaluator of that class -/
+def KwCacheOK (c : KwCache) : Prop := ∀ p ∈ c, ∀ e : Ev, e.cls = p.1.1 → acceptsKw e p.1.2 = p.2
+
+theorem dispatchStepCached_out (c : KwCache) (q : Ev × Nat) (hc : KwCacheOK c) :
+    (dispatchStepCached c q).2 = acceptsKw q.1 q.2 := by
+  unfold dispatchStepCached
+  split
+  · rename_i p hf
+    have hm := List.mem_of_find?_eq_some hf
+    have hp := List.find?_some hf
+    simp only [beq_iff_eq] at hp
+    have := hc p hm q.1 (by rw [hp])
+    rw [hp] at this
+    exact this.symm
+  · rfl
+
+theorem dispatchStepCached_inv
+    (H : ∀ (e e' : Ev) (k : Nat), e.cls = e'.cls → acceptsKw e k = acceptsKw e' k)
+    (c : KwCache) (q : Ev × Nat) (hc : KwCacheOK c) : KwCacheOK (dispatchStepCached c q).1 := by
+  unfold dispatchStepCached
+  split
+  · exact hc
+  · intro p hp e he
+    simp only [List.mem_append, List.mem_singleton] at hp
+    rcases hp with hp | hp
+    · exact hc p hp e he
+    · subst hp
+      exact H e q.1 q.2 he
+
 end VL.Purity
